@@ -210,6 +210,9 @@ func enumGetlineInPrintList(thorough bool, yield func(Case) bool) {
 // regex and string literals at several nesting depths (the printer re-indents nested statements), odd but accepted forms
 func enumOddSources(thorough bool, yield func(Case) bool) {
 	atoms := []string{"1e999", "-1e999", "1e400 + 1", "x = 1e999 \"\" 1e999", "/a\\\nb/", "$0 ~ /a\\\nb/", "\"a\\\nb\"", "x ~ /^\\\n$/", "/[\\\n]/", "1.5e", "1e+", "010", "0x1A", ".5", "5.", "1e-999", "0.000001", "123456789012345678901234567890",
+		// literals at the edges of the six-significant-digit rendering: rounding up into the next power of ten, the
+		// switch to exponent form, values that become integral once rounded
+		"999999.5", "999999.7", "999999.99", "999999.4", "99999.95", "9.999995", "0.9999995", "9999995e-1", "1000000.4", "1234567.5", "123456.5", "123456.7", "0.00001234567", "0.0001", "0.00009999995", "1e5", "1e6", "1e-5", "100000.5", "999999", "1000000", "1e15", "999999999999999.9", "0.1e7", "2147483647.5", "x = 999999.7 + 999999.5", "$999999.7", "a[999999.99]",
 		"a[1e999]", "$1e999", "substr(s, 1e999)", "x = -1e999 ^ 2", "/\\//", "\"\\/\"", "/a\\/b\\\nc/", "getline line < \"f\"", "! x", "- - x", "+ + x", "!!x", "x++ + ++y", "a = b ~ c", "$NF--", "$ i++", "$(i)++"}
 	wraps := []string{"BEGIN { y = %s }", "BEGIN { if (1) { y = %s } }", "BEGIN { if (1) { while (0) { if (2) y = %s } } }", "function f(a) { return %s }", "%s { print }", "END { for (;;) { do y = %s; while (0); break } }", "BEGIN { print %s > \"out\" }"}
 	for _, a := range atoms {
